@@ -397,11 +397,11 @@ theorem encodeCookies_ok : ∀ (cs : List Cookie.CookieRec), (∀ c ∈ cs, WFCo
     encodeCookies cs = some (cs.map fun c => (Gen.Gateway.setCookieNameBytes, Cookie.line c))
   | [], _ => rfl
   | c :: rest, h => by
-    have h1 : ∀ x ∈ Cookie.line c, x < 128 := by
+    have h1 : ∀ x ∈ Cookie.line c, x < 256 := by
       intro x hx
       have := cookie_line_printable c (h c List.mem_cons_self) x hx
       omega
-    simp only [encodeCookies, encodeAscii_ok h1,
+    simp only [encodeCookies, encodeLatin1_ok h1,
       encodeCookies_ok rest (fun x hx => h x (List.mem_cons_of_mem _ hx)), List.map_cons]
 
 /-- ASGI: `list_headers(as_bytes=True)` does not raise and every pair is legal -/
